@@ -91,13 +91,28 @@ func runSearch(path string) {
 					args.Vector = append(args.Vector, math.Float64frombits(u(s)))
 				}
 				considered = considered[:0]
+				syz.VerifConsiderHook = func(id uint64) { considered = append(considered, id) }
 				res := c.Search(args)
+				syz.VerifConsiderHook = nil
 				var b strings.Builder
 				fmt.Fprintf(&b, "res %d %d", math.Float64bits(res.PercentSearched), len(res.Results))
 				for _, r := range res.Results {
 					fmt.Fprintf(&b, " %d %d %d", r.ID, math.Float64bits(r.Distance), hashBytes(r.Metadata))
 				}
 				fmt.Fprintln(out, b.String())
+				var cb strings.Builder
+				fmt.Fprintf(&cb, "considered %d", len(considered))
+				for _, id := range considered {
+					fmt.Fprintf(&cb, " %d", id)
+				}
+				fmt.Fprintln(out, cb.String())
+			case "forest":
+				for i, r := range c.VerifForest() {
+					var b strings.Builder
+					fmt.Fprintf(&b, "tree %d", i)
+					writeNode(&b, r)
+					fmt.Fprintln(out, b.String())
+				}
 			case "docs":
 				for _, id := range c.GetAllIDs() {
 					d, err := c.GetDocument(id)
@@ -124,3 +139,24 @@ func runSearch(path string) {
 }
 
 var considered []uint64
+
+// preorder: "L n ids..." | "X" (nil) | "N bbits dim normalbits... <left> <right>"
+func writeNode(b *strings.Builder, n *syz.VerifNode) {
+	if n == nil {
+		b.WriteString(" X")
+		return
+	}
+	if n.Leaf {
+		fmt.Fprintf(b, " L %d", len(n.IDs))
+		for _, id := range n.IDs {
+			fmt.Fprintf(b, " %d", id)
+		}
+		return
+	}
+	fmt.Fprintf(b, " N %d %d", math.Float64bits(n.B), len(n.Normal))
+	for _, x := range n.Normal {
+		fmt.Fprintf(b, " %d", math.Float64bits(x))
+	}
+	writeNode(b, n.Left)
+	writeNode(b, n.Right)
+}
